@@ -81,3 +81,30 @@ Theorem C01_stmt_retype_refuted :
     trP <> trC /\ guard_ok retype = false.
 Proof. exact retype_refuted. Qed.
 Print Assumptions C01_stmt_retype_refuted.
+
+(* Hoisting ("promotion") out of nested blocks is not semantics-preserving: a name first assigned
+   inside a loop nested in another loop is hoisted twice, and the inner hoisted declaration is
+   rewritten to `z = 0;`, which the outer loop executes again on every iteration.
+   `w = 0; while w < 2: (for k in range(1 - w): z = 5); w = w + 1` then `mon.write(z)`:
+   Python writes 5, the device writes 0.  Finding F-C01-hoisted-decl-reinit. *)
+Theorem C01_stmt_promotion_reinit_refuted :
+  exists c trP trC,
+    transl reinit = Some c /\ sem_facts reinit_sem demo_aug reinit /\
+    pprog_exec reinit_sem demo_aug 20 0 reinit = Some trP /\
+    cprog_exec reinit_sem demo_aug (info_of reinit) 20 0 false c = Some trC /\
+    trP <> trC /\ guard_ok reinit = false.
+Proof. exact reinit_refuted. Qed.
+Print Assumptions C01_stmt_promotion_reinit_refuted.
+
+(* A name first assigned inside `while True:` is a local of loop() and is declared (hoisted:
+   with its default value) again on every pass, while Python keeps its value from the previous pass:
+   `w = 0; while True: (if w == 0: z = 5); w = w + 1; mon.write(z)` writes 5 5 in Python and
+   5 0 on the device.  Finding F-C01-loop-local-reinit. *)
+Theorem C01_stmt_loop_local_reinit_refuted :
+  exists c trP trC,
+    transl looplocal = Some c /\ sem_facts looplocal_sem demo_aug looplocal /\
+    pprog_exec looplocal_sem demo_aug 20 2 looplocal = Some trP /\
+    cprog_exec looplocal_sem demo_aug (info_of looplocal) 20 2 true c = Some trC /\
+    trP <> trC /\ guard_ok looplocal = false.
+Proof. exact looplocal_refuted. Qed.
+Print Assumptions C01_stmt_loop_local_reinit_refuted.
